@@ -413,9 +413,17 @@ def run_history(history: list[dict[str, Any]], tid: int) -> dict[str, Any]:
         seq += 1
         events.append({"tid": tid, "seq": seq, "ev": "Begin", "kind": kind, "x64": x64_before, "leaked": 0, "pstate": len(ps._PATCH_STATE), "inbuild": len(ps._IN_FUNCTION_BUILD.get()), "raised": False, "probe_ok": True, "mutated": False})
         raised = None
+        import contextlib
+
+        # the caller may itself sit inside JAX's thread-local jax.enable_x64(...) context: the PROCESS-WIDE
+        # setting (what the property names) is read before / after, outside of that context
+        outer = contextlib.nullcontext() if h.get("x64_ctx") is None else jax.enable_x64(bool(h["x64_ctx"]))
+        if h.get("x64_ctx") is not None:
+            x64_before = bool(jax.config.read("jax_enable_x64")) if hasattr(jax.config, "read") else x64_before
         with _Fault(h.get("fault")) as flt:
             try:
-                jax2onnx.to_onnx(fn, inputs, **kw)
+                with outer:
+                    jax2onnx.to_onnx(fn, inputs, **kw)
             except BaseException as ex:  # noqa: BLE001
                 raised = f"{type(ex).__name__}: {str(ex)[:120]}"
         snap_after = namespace_snapshot()
@@ -444,7 +452,7 @@ def run_history(history: list[dict[str, Any]], tid: int) -> dict[str, Any]:
             "mutated": digest_before != digest_after,
         }
         events.append(ev)
-        ev_detail = {"step": step, "kind": kind, "fault": h.get("fault"), "fault_fired": flt.fired, "raised": raised, "diff": diff[:12], "probes_before": probes_before, "probes_after": probes_after, "x64_before": x64_before, "x64_after": x64_after}
+        ev_detail = {"step": step, "kind": kind, "fault": h.get("fault"), "fault_fired": flt.fired, "raised": raised, "diff": diff[:12], "probes_before": probes_before, "probes_after": probes_after, "x64_before": x64_before, "x64_after": x64_after, "x64_ctx": h.get("x64_ctx")}
         events[-1]["_detail"] = ev_detail
     return {"events": events}
 
